@@ -96,6 +96,23 @@ def property_variants():
     out.append(("class M{a:int} default={a:true}", cls("M", base, default={"a": True})))
     out.append(("class M{a:int} description", cls("M", base, description="d")))
     out.append(("class M{} ", cls("M", {})))
+    def inherit(kind):
+        def f():
+            cd = ObjectClassDict()
+            cd["value"] = Property(Integer())
+            if kind == "plain":
+                return ObjectMeta("K", (Object,), cd)
+            if kind == "copy":
+                return ObjectMeta("K", (Object,), cd, minProperties=1, required=["value"], description="d", patternProperties={"^x": String()})
+            base = ObjectMeta("Base", (Object,), cd if kind == "child-no-props" else ObjectClassDict(), minProperties=1, required=["value"], description="d", patternProperties={"^x": String()})
+            if kind == "child-no-props":
+                return ObjectMeta("K", (base,), ObjectClassDict())
+            return ObjectMeta("K", (base,), cd)
+
+        return f
+
+    for kind in ("plain", "copy", "child", "child-no-props"):
+        out.append(("class K %s (inherits minProperties/required/description/patternProperties)" % kind, inherit(kind)))
     out.append(("Element(properties a:int)", lambda: Element(properties={"a": Property(Integer())})))
     out.append(("Element(properties a:int required)", lambda: Element(properties={"a": Property(Integer(), required=True)})))
     out.append(("Element(properties a:int source=A)", lambda: Element(properties={"a": Property(Integer(), source="A")})))
@@ -189,15 +206,63 @@ def observe(idx):
     return _OBS[idx]
 
 
+def threaded_equality(st, only=None, bound2=False, shard=None):
+    """E3 on ==: two (three) threads compare the same shared elements at the same time; every schedule with <= 1 preemption
+    at line granularity inside statham files (thorough: <= 2 at call/backward-jump granularity on the smallest case); each comparison must give its sequential answer."""
+    from mc import sched
+
+    cases = {
+        "unequal-same-direction": (lambda: (String(maxLength=3), String(maxLength=5)), [(0, 1), (0, 1)], [False, False]),
+        "equal-same-direction": (lambda: (Array(Integer(minimum=1)), Array(Integer(minimum=1))), [(0, 1), (0, 1)], [True, True]),
+        "unequal-nested": (lambda: (Element(properties={"a": Property(String(default=[1]))}), Element(properties={"a": Property(String(default=[True]))})), [(0, 1), (0, 1), (1, 0)], [False, False, False]),
+        "mixed": (lambda: (AnyOf(Integer(), String()), AnyOf(Integer(), String()), AnyOf(String(), Integer())), [(0, 1), (0, 2), (1, 2)], [True, False, False]),
+    }
+    for label, (mk, pairs, want) in cases.items():
+        if only and label != only:
+            continue
+
+        def make_bodies():
+            els = mk()
+            return [(lambda i=i, j=j: bool(els[i] == els[j])) for i, j in pairs], els
+
+        def check(ex, els, schedule):
+            st.add("evaluations")
+            st.add("states")
+            st.add("traces")
+            st.add("transitions", ex.steps)
+            got = [ex.results.get(i) for i in range(len(pairs))]
+            if got != want or ex.errors:
+                st.violation("concurrent-equality-differs", "%s: under schedule %s the comparisons gave %s (errors %s), sequentially %s" % (label, sorted(schedule.items()), got, ex.errors, want), {"case": label, "schedule": sorted(schedule.items()), "got": got, "sequential": want}, rank=len(schedule))
+
+        try:
+            for start in range(len(pairs)):
+                if shard and shard[0] != start:
+                    continue
+                res = sched.explore(make_bodies, check, 2 if (bound2 and label == "unequal-same-direction") else 1, "line" if not bound2 else "switch", base={0: start}, shard=(shard[1], shard[2]) if shard else (0, 1))
+                st.add("schedules", res["executions"])
+                st.sets["eq-points"].add(res["points_root"])
+        except (sched.ScheduleDivergence, sched.Deadlock) as exc:
+            st.violation("HARNESS:%s" % type(exc).__name__, "%s: %s" % (label, exc), {"case": label})
+    st.sample({"threaded_equality_cases": sorted(cases)})
+    st.outcome("threaded-equality")
+
+
 def plan(tier, seed):
     n = len(pool())
     chunk = 8
-    items = [("rows", lo, min(n, lo + chunk)) for lo in range(0, n, chunk)]
+    nthreads = {"unequal-same-direction": 2, "equal-same-direction": 2, "unequal-nested": 3, "mixed": 3}
+    items = [("threads", c, False, (s0, r, 8)) for c, k in nthreads.items() for s0 in range(k) for r in range(8)]
+    if tier == "thorough":
+        items += [("threads", "unequal-same-direction", True, (s0, r, 32)) for s0 in range(2) for r in range(32)]
+    items += [("rows", lo, min(n, lo + chunk)) for lo in range(0, n, chunk)]
     return {"items": items, "chunksize": 2, "meta": {"pool": n, "ordered_pairs": n * n, "values": len(VALUES), "exhaustive": True}}
 
 
 def work(item):
     st = runner.Stats()
+    if item[0] == "threads":
+        threaded_equality(st, item[1], item[2], item[3])
+        return st
     p = pool()
     n = len(p)
     for i in range(item[1], item[2]):
@@ -244,6 +309,9 @@ def work(item):
 
 def replay(case):
     st = runner.Stats()
+    if "schedule" in case:
+        threaded_equality(st)
+        return [v for lst in st.violations.values() for _, v in lst]
     p = pool()
     labels = [l for l, _ in p]
     if case.get("a") in labels:
